@@ -157,6 +157,7 @@ const P16: &str = "C16";
 
 pub struct Run {
     pub app: SimApp,
+    sut_panic: std::cell::RefCell<Option<String>>,
     denom: String,
     foreign_denom: String,
     addrs: Vec<String>,      // delegators + extra accounts
@@ -195,17 +196,36 @@ impl Run {
         }
     }
 
+    /// The checker's own questions to the application: a panic in there is the simulator's; it is noted and
+    /// reported as a violation at the end of the step.
+    fn ask<T>(&self, default: T, f: impl FnOnce() -> T) -> T {
+        match std::panic::catch_unwind(std::panic::AssertUnwindSafe(f)) {
+            Ok(x) => x,
+            Err(p) => {
+                let mut slot = self.sut_panic.borrow_mut();
+                if slot.is_none() {
+                    *slot = Some(crate::harness::panic_message(&p));
+                }
+                default
+            }
+        }
+    }
+
     fn balance(&self, addr: &str) -> u128 {
-        self.app.wrap().query_balance(addr.to_string(), self.denom.clone()).map(|c| c.amount.u128()).unwrap_or(u128::MAX)
+        self.ask(u128::MAX, || self.app.wrap().query_balance(addr.to_string(), self.denom.clone()).map(|c| c.amount.u128()).unwrap_or(u128::MAX))
     }
 
     fn supply(&self) -> u128 {
-        self.app.wrap().query_supply(self.denom.clone()).map(|c| c.amount.u128()).unwrap_or(u128::MAX)
+        self.ask(u128::MAX, || self.app.wrap().query_supply(self.denom.clone()).map(|c| c.amount.u128()).unwrap_or(u128::MAX))
     }
 
     /// (shown delegation, pending reward shown) of a pair with one delegation query; the keeper's own
     /// accessor supplies the pending reward when the query hides a sub-token delegation.
     fn view(&self, d: usize, v: usize) -> Result<(u128, u128), String> {
+        self.ask(Err("the query panicked".to_string()), || self.view_inner(d, v))
+    }
+
+    fn view_inner(&self, d: usize, v: usize) -> Result<(u128, u128), String> {
         match self.app.wrap().query_delegation(self.addrs[d].clone(), self.validators[v].clone()) {
             Ok(Some(fd)) => {
                 let pending = fd.accumulated_rewards.iter().filter(|c| c.denom == self.denom).map(|c| c.amount.u128()).sum();
@@ -958,6 +978,14 @@ impl Run {
     }
 
     pub fn step(&mut self, op: &SOp) {
+        self.step_inner(op);
+        let p = self.sut_panic.borrow_mut().take();
+        if let Some(p) = p {
+            self.vall("panic", format!("the simulator panicked while the checker queried it (balances, delegations, rewards): {}", p));
+        }
+    }
+
+    fn step_inner(&mut self, op: &SOp) {
         let nd = self.m.withdraw_to.len().min(self.addrs.len());
         let ndel = nd.min(self.m.slashes.len().max(nd));
         let _ = ndel;
@@ -1107,6 +1135,7 @@ pub fn build(case: &Case) -> Run {
     let now = mock_env().block.time.nanos();
     Run {
         app,
+        sut_panic: std::cell::RefCell::new(None),
         denom,
         foreign_denom,
         addrs,
